@@ -12,6 +12,9 @@ pub struct CaseCtx {
 }
 
 pub struct CaseResult {
+    /// the IR could only be extracted leniently (the strict extraction refused a construct: the model
+    /// tie is already reported as broken through `diffs`; model requests on this IR are meaningless)
+    pub lenient: bool,
     pub schema_path: PathBuf,
     pub real: RealOutcome,
     pub model: Sexp,
@@ -44,15 +47,22 @@ impl CaseCtx {
     pub fn run(&mut self, schema_text: &str, is_json: bool, query_text: &str, opts: &Opts) -> CaseResult {
         let (schema_path, real) = self.run_real(schema_text, is_json, query_text, opts);
         let model = predict(&mut self.model, schema_text, is_json, query_text, opts);
+        let mut lenient = false;
         let modules = match &real {
-            RealOutcome::Ok(t) => extract::extract(t).ok(),
+            RealOutcome::Ok(t) => match extract::extract(t) {
+                Ok(m) => Some(m),
+                Err(_) => {
+                    lenient = true;
+                    extract::extract_lenient(t).ok()
+                }
+            },
             _ => None,
         };
         let diffs = match compare_outcome(&real, &model) {
             Ok(()) => vec![],
             Err(d) => d,
         };
-        CaseResult { schema_path, real, model, modules, diffs }
+        CaseResult { lenient, schema_path, real, model, modules, diffs }
     }
 }
 
